@@ -612,9 +612,59 @@ func ReachFromEdges(fn *ssa.Function, edges map[Edge]bool, cut map[Edge]bool) ma
 // of the guards are cut (i.e. every path to the sink goes through a pass edge of some guard).
 // It also returns how many Ifs matched each guard.
 func GuardedBy(fn *ssa.Function, sink ssa.Instruction, guards ...Guard) (bool, []int) {
-	cut, counts := PassEdges(fn, guards...)
-	r := ReachBlocks(fn, nil, cut)
-	return !r[sink.Block()], counts
+	return liftGuarded(fn, sink, 0, func(f *ssa.Function, at ssa.Instruction) (bool, []int) {
+		cut, counts := PassEdges(f, guards...)
+		r := ReachBlocks(f, nil, cut)
+		return !r[at.Block()], counts
+	})
+}
+
+// LiftSite is a static call site of a function.
+type LiftSite struct {
+	Caller *ssa.Function
+	Site   ssa.CallInstruction
+}
+
+// LiftCallers (set by the rule context from the call graph) lists all call sites of a module
+// function. Guard checks that fail inside a function are repeated at every call site of that
+// function when it is a plain helper: only called statically, by ordinary calls (a sequential phase
+// `validate(); apply(); notify()` or an extracted block): the sink is guarded when every way of
+// reaching its function is.
+var LiftCallers func(fn *ssa.Function) []LiftSite
+
+// NoLift switches the caller lifting off (for rules that need the intraprocedural answer).
+var NoLift bool
+
+func liftGuarded(fn *ssa.Function, sink ssa.Instruction, depth int, check func(f *ssa.Function, at ssa.Instruction) (bool, []int)) (bool, []int) {
+	ok, counts := check(fn, sink)
+	if ok || NoLift || LiftCallers == nil || depth >= 2 || len(ParamSubst) > 0 {
+		return ok, counts
+	}
+	if fn.Parent() != nil {
+		// a function literal: lifted to the places where the enclosing function calls it
+		return ok, counts
+	}
+	sites := LiftCallers(fn)
+	if len(sites) == 0 {
+		return ok, counts
+	}
+	total := append([]int{}, counts...)
+	for _, cs := range sites {
+		call, isCall := cs.Site.(*ssa.Call)
+		if !isCall || call.Call.StaticCallee() != fn || !inModule(cs.Caller) {
+			return false, counts
+		}
+		ok2, c2 := liftGuarded(cs.Caller, call, depth+1, check)
+		if !ok2 {
+			return false, counts
+		}
+		for i := range c2 {
+			if i < len(total) {
+				total[i] += c2[i]
+			}
+		}
+	}
+	return true, total
 }
 
 // Pos of an instruction, falling back to neighbours when the instruction has none.
@@ -1220,6 +1270,12 @@ func assumedCuts(fn *ssa.Function) map[Edge]bool {
 // GuardedByCorr is GuardedBy that also prunes paths contradicting the boolean values implied by
 // the branches dominating the sink.
 func GuardedByCorr(fn *ssa.Function, sink ssa.Instruction, guards ...Guard) (bool, []int) {
+	return liftGuarded(fn, sink, 0, func(f *ssa.Function, at ssa.Instruction) (bool, []int) {
+		return guardedByCorr1(f, at, guards...)
+	})
+}
+
+func guardedByCorr1(fn *ssa.Function, sink ssa.Instruction, guards ...Guard) (bool, []int) {
 	saved, savedP := Assumed, AssumedPaths
 	Assumed = DominatingConds(fn, sink)
 	AssumedPaths = DominatingPaths(fn, sink)
@@ -1341,6 +1397,7 @@ func allocatingCtor(fn *ssa.Function, depth int) bool {
 
 // summariseWrapper: for `if callee(args)` adds the edge(s) on which each guard is implied.
 func summariseWrapper(b *ssa.BasicBlock, a CondAtom, depth int, guards []Guard, edges map[Edge]bool, counts []int) {
+	defer summariseRelational(b, a, depth, guards, edges, counts)
 	call, idx, kind := wrapperCall(a)
 	if call == nil {
 		return
